@@ -152,6 +152,7 @@ type simschedState struct {
 	spinSleeps uint64 // virtual-time sleeps injected into spinning runs
 	spinLevel  uint32
 	spinEnd    int64
+	spinSleepers int32 // goroutines currently inside an injected spin-guard sleep
 	pct        bool   // PCT-style priority scheduling instead of uniform picks
 	pctDepth   uint32
 	pctGen     uint32
@@ -295,6 +296,7 @@ func simEnable(schedSeed, auxSeed uint64, yieldThr uint32) {
 	simsched.hash, simsched.diverge = 0, 0
 	simsched.spinSites, simsched.spinNow, simsched.spinSleeps = 0, -1, 0
 	simsched.spinLevel, simsched.spinEnd = 0, -1
+	simsched.spinSleepers = 0
 	simsched.ndec = 0
 	simsched.ntrace = 0
 	simsched.over = false
@@ -465,6 +467,14 @@ func simIsEnabled() bool { return simsched.enabled }
 //go:linkname simDeferrals
 func simDeferrals() uint64 { return simsched.sdCount }
 
+// simSpinSleepers reports how many goroutines are inside a sleep injected by
+// the spin guard, and the (bubble clock) instant at which the latest of them
+// ends. Quiescence oracles must not judge while there is one: such a goroutine
+// is runnable work that was merely charged virtual time.
+//
+//go:linkname simSpinSleepers
+func simSpinSleepers() (n int32, end int64) { return simsched.spinSleepers, simsched.spinEnd }
+
 // simDecide returns the next scheduling decision in [0,n). draw is the value
 // the seeded stream would produce. In recording mode draw is stored; in
 // playback mode the stored value replaces it.
@@ -551,7 +561,9 @@ func simYield() {
 			}
 			d := int64(1000) << (3 * lv)
 			simsched.spinEnd = now + d
+			simsched.spinSleepers++
 			timeSleep(d)
+			simsched.spinSleepers--
 		}
 	}
 	var d uint32
